@@ -73,6 +73,8 @@ Definition on_bus (n:node) (i:Z) : Prop :=
 Definition driver_accepts (n:node) : Prop := n_drv n = [] /\ ring_wf (n_q n).
 (* the application has not declared the single-frame protocol PGNs 59392 / 60928 as fast-packet PGNs *)
 Definition protocol_pgns_single (c:pgncfg) : Prop := is_fast_packet_pgn c 59392 = false /\ is_fast_packet_pgn c 60928 = false.
+(* every device has its extended state (pending-information schedulers, heartbeat, receive list) *)
+Definition rnode_wf (r:rnode) : Prop := length (rx_dev r) = length (n_devs (rn r)).
 Definition info_fits (c:rcfg) : Prop := (length (c_prodinfo c) <= 223)%nat /\ (length (c_confinfo c) <= 223)%nat.
 Definition handler_accepts (c:rcfg) (p:Z) : bool := match c_iso_handler c with Some acc => existsb (Z.eqb p) acc | None => false end.
 Definition quiet_after (n:node) : Prop := n_drv n = [] /\ ring_wf (n_q n) /\ q_rd (n_q n) = q_wr (n_q n).
@@ -96,7 +98,7 @@ Definition positive_answer (r:rnode) (requester p i:Z) (res:rnode * list event) 
    (q_rd = q_wr) [pending_flush] is [] (iso_addressed_empty_queue_stmt) *)
 Definition iso_addressed_answered_stmt : Prop :=
   forall r requester p i, 0 <= p < 2^24 -> 0 <= requester < 256 ->
-    on_bus (rn r) i -> driver_accepts (rn r) -> protocol_pgns_single (n_pgn (rn r)) -> info_fits (r_cfg r) ->
+    on_bus (rn r) i -> driver_accepts (rn r) -> protocol_pgns_single (n_pgn (rn r)) -> info_fits (r_cfg r) -> rnode_wf r ->
     let d := get_dev (rn r) i in
     let res := respond_iso_request r requester true p i in
     (mandatory_pgn p = true -> positive_answer r requester p i res) /\
@@ -122,7 +124,7 @@ Definition iso_broadcast_never_nak_stmt : Prop :=
     ring_wf (n_q (rn r')) /\
     ((* with the hypotheses of statement 1, the mandatory PGNs draw the same positive answers *)
      mandatory_pgn p = true -> on_bus (rn r) i -> driver_accepts (rn r) -> protocol_pgns_single (n_pgn (rn r)) -> info_fits (r_cfg r) ->
-     positive_answer r requester p i (r', ev)) /\
+     rnode_wf r -> positive_answer r requester p i (r', ev)) /\
     ((* the application's handler: asked unless the PGN is on the list of broadcast requests to ignore; the library sends nothing *)
      mandatory_pgn p = false -> snd (claim_started (rn r) i) = false ->
      ev = (if handler_accepts (r_cfg r) p && negb (existsb (Z.eqb p) ref_ignore_broadcast) then [EvNote (1000000 + p)] else []) /\
@@ -171,13 +173,13 @@ Definition info_msg (r:rnode) (i pgn:Z) (payload:list Z) : msg :=
 Definition refused_frame (ev:list event) : Prop := exists id len data, In (EvTx id len data false) ev.
 Definition iso_retry_stmt : Prop :=
   (* (a) the scheduler follows the result of SendMsg: success disarms, failure arms at now + 187 + 8 (resp. 10) * source ms *)
-  (forall r i, 0 <= i < dev_count (rn r) ->
+  (forall r i, 0 <= i < dev_count (rn r) -> rnode_wf r ->
      let '(r1, ev1, ok) := rsend r (info_msg r i 126996 (c_prodinfo (r_cfg r))) i in
      let '(r', ev) := send_product_info r i in
      ev = ev1 /\ rn r' = rn r1 /\
      x_pend_prod (get_devx r' i) = (if ok then sched_disabled (w64 r) else sched_from_now (w64 r) (now r) (187 + 8 * d_src (get_dev (rn r) i))) /\
      x_pend_conf (get_devx r' i) = x_pend_conf (get_devx r i) /\ x_pend_claim (get_devx r' i) = x_pend_claim (get_devx r i)) /\
-  (forall r i, 0 <= i < dev_count (rn r) ->
+  (forall r i, 0 <= i < dev_count (rn r) -> rnode_wf r ->
      let '(r1, ev1, ok) := rsend r (info_msg r i 126998 (c_confinfo (r_cfg r))) i in
      let '(r', ev) := send_config_info r i in
      ev = ev1 /\ rn r' = rn r1 /\
@@ -225,7 +227,8 @@ Definition iso_high_address_unanswered_stmt : Prop :=
   exists r requester p i, 0 <= p < 2^24 /\ 0 <= requester < 256 /\
     n_open (rn r) = 3 /\ n_mode (rn r) = 1 /\ 0 <= i < dev_count (rn r) /\ snd (claim_started (rn r) i) = false /\ driver_accepts (rn r) /\
     q_rd (n_q (rn r)) = q_wr (n_q (rn r)) /\ 251 < d_src (get_dev (rn r) i) <= 253 /\
-    respond_iso_request r requester true p i = (r, []).
+    mandatory_pgn p = false /\ handler_accepts (r_cfg r) p = false /\
+    snd (respond_iso_request r requester true p i) = [] /\ rn (fst (respond_iso_request r requester true p i)) = rn r.
 (* (2) an addressed request that arrives while the driver refuses and the queue is full is never answered: the negative
        acknowledgement is dropped and nothing is armed to repeat it (only product and configuration information are retried) *)
 Definition iso_nak_dropped_when_queue_full_stmt : Prop :=
